@@ -45,12 +45,15 @@ type world struct {
 	tip  int32
 	now  time.Time
 
-	blkCtr   uint64
-	blockTxs map[chainhash.Hash][]int // in-block order of every block mined in this run
-	lastBlk  map[int]chainhash.Hash   // block a tx was last confirmed in
-	usedCB   map[int]bool             // coinbases that have been mined once
-	orphans  map[int32]orphanBlock    // blocks of the last disconnection, by height
+	blkCtr     uint64
+	blockTxs   map[chainhash.Hash][]int // in-block order of every block mined in this run
+	lastBlk    map[int]chainhash.Hash   // block a tx was last confirmed in
+	usedCB     map[int]bool             // coinbases that have been mined once
+	orphans    map[int32]orphanBlock    // blocks of the last disconnection, by height
 	everLeased map[wire.OutPoint]bool
+	// viaNonWallet: transactions that disappeared (model) because they depend
+	// on a disconnected coinbase only through a non-wallet output of it.
+	viaNonWallet []chainhash.Hash
 
 	env  *core.Env
 	drv  driver
@@ -159,9 +162,18 @@ func (w *world) canMine(L *ledger.Ledger, t *utx, h int32, coinbaseAllowed bool)
 	if !w.parentsOK(L, t, h, true) {
 		return false
 	}
-	for _, c := range L.View().Conflicts(t.msg) {
-		if c.Block != nil {
-			return false
+	// no CONFIRMED transaction may spend one of its inputs (a boolean over
+	// the set: the iteration order is irrelevant)
+	for _, lt := range L.Txs {
+		if lt.Block == nil || lt.Hash == t.hash {
+			continue
+		}
+		for _, in := range lt.Msg.TxIn {
+			for _, tin := range t.msg.TxIn {
+				if in.PreviousOutPoint == tin.PreviousOutPoint {
+					return false
+				}
+			}
 		}
 	}
 	return true
@@ -533,6 +545,10 @@ func (w *world) opRollback(op core.Op) bool {
 		}
 	}
 	w.removalProbes(res.Removed)
+	if len(res.ViaNonWallet) > 0 {
+		w.probe("coinbase-dependant-via-non-wallet-output")
+		w.viaNonWallet = append(w.viaNonWallet, res.ViaNonWallet...)
+	}
 	if height <= w.tip {
 		w.tip = height - 1
 	}
